@@ -40,7 +40,8 @@ RULE = ('base file = synthesised world W1 on layouts v19/v20/v21/v21-L4D2/INFRA/
         '(W1, W2, view set). Restrictions: as C10, plus hammer ids of one face list are all set or all None (FACEIDS cannot '
         'mix), HDR-face hammer ids compared only when every view is replaced, original-face texinfo/hammer id not compared '
         '(reader documents overwriting them), static-prop fields a version does not store are not compared, node/leaf '
-        'bounds integral on integer layouts, output delays short decimals (text field), static prop version taken from '
+        'bounds integral on integer layouts, material names compared case-insensitively when only some views are replaced '
+        '(the texture table is documented as case-insensitive), output delays short decimals (text field), static prop version taken from '
         'the base file (props are read before being replaced).')
 ASSUMPTIONS = list(c10.ASSUMPTIONS) + ['"does not fit" is asserted for integer range, name length and overlay face count only']
 JOBS = {'quick': 4, 'thorough': 16}
@@ -219,7 +220,7 @@ class Deep:
             td = t._info
             return {'s': G._v(t.s_off) + [t.s_shift], 't': G._v(t.t_off) + [t.t_shift], 'ls': G._v(t.lightmap_s_off) + [t.lightmap_s_shift],
                     'lt': G._v(t.lightmap_t_off) + [t.lightmap_t_shift], 'flags': t.flags.value,
-                    'texdata': self.ref('texdata', td, lambda d: [d.mat, G._v(d.reflectivity), d.width, d.height])}
+                    'texdata': self.ref('texdata', td, lambda d: [d.mat.casefold(), G._v(d.reflectivity), d.width, d.height])}
         return self.ref('texinfo', t, body)
 
     def edge(self, e: Any) -> Any:
